@@ -24,14 +24,15 @@ Op ==
                /\ s' = m.st /\ sent' = sent \cup {<<e.tid, e.to, s.now>>} /\ UNCHANGED handedSet
        [] e.op = "recv" ->
             LET T == [lo |-> e.timeout_ms, hi |-> e.timeout_hi_ms]
-                ok(k) == LET r == Recv(s, e.tid, e.from, T, k) IN
+                ok(k) == LET r == Recv(s, e.tid, e.from, T, k, e.kind) IN
                            e.handed = r.handed /\ e.present = [i \in 1..Len(r.st.reqs) |-> r.st.reqs[i].tid] /\ e.cap = r.st.cap
                 good == {k \in Cuts(s, T) : ok(k)}
-                m == Recv(s, e.tid, e.from, T, IF good # {} THEN CHOOSE k \in good : TRUE ELSE 0)
+                m == Recv(s, e.tid, e.from, T, IF good # {} THEN CHOOSE k \in good : TRUE ELSE 0, e.kind)
                 \* the requests this message could answer: same id, same address
-                mine == {x \in sent : x[1] = e.tid /\ x[2] = e.from}
+                \* (a request, or bytes that are no message, answer nothing)
+                mine == IF Answers(e.kind) THEN {x \in sent : x[1] = e.tid /\ x[2] = e.from} ELSE {}
                 fresh == \E x \in mine : s.now - x[3] < e.timeout_hi_ms
-                f == (IF e.handed /\ mine = {} THEN {"C09_OnlyAddressee"} ELSE {})
+                f == (IF e.handed /\ mine = {} /\ e.kind # "req" THEN {"C09_OnlyAddressee"} ELSE {})
                      \cup (IF e.handed /\ mine # {} /\ ~fresh THEN {"C09_ExpiredIgnored"} ELSE {})
                      \cup (IF e.handed /\ e.tid \in handedSet /\ Cardinality(mine) = 1 THEN {"C09_AtMostOnce"} ELSE {})
                      \* no message - a spoof (unknown id, wrong address) least of all - takes an unexpired request out of the table,
@@ -46,7 +47,7 @@ Op ==
                 conforms == good # {}
             IN /\ IF f # {} /\ mode # "done" THEN Report("VIOL", f, e) ELSE IF mode = "ok" /\ ~conforms THEN Report("DRIFT", {}, e) ELSE TRUE
                /\ mode' = IF f # {} \/ mode = "done" THEN "done" ELSE IF mode = "ok" /\ ~conforms THEN "skip" ELSE mode
-               /\ s' = m.st /\ handedSet' = (IF e.handed THEN handedSet \cup {e.tid} ELSE handedSet) /\ UNCHANGED sent
+               /\ s' = m.st /\ handedSet' = (IF e.handed /\ Answers(e.kind) THEN handedSet \cup {e.tid} ELSE handedSet) /\ UNCHANGED sent
        [] e.op = "advance" -> s' = Advance(s, e.ms) /\ UNCHANGED <<mode, sent, handedSet>>
   /\ l' = l + 1 /\ UNCHANGED beh
 TNext == l <= Len(Rec) /\ (Reset \/ Op)
